@@ -320,7 +320,7 @@ func aggregate(id, tier string, seed int64, pi propInfo, outs []*hx.ShardOut, xr
 				cp.ByCost = map[string]int64{}
 				cp.Outcomes = map[string]int64{}
 				cp.Violations = nil
-				cp.Executions, cp.Points, cp.NonTrivial, cp.States, cp.Transitions, cp.EndStatesN = 0, 0, 0, 0, 0, 0
+				cp.Executions, cp.Points, cp.NonTrivial, cp.States, cp.Transitions, cp.EndStatesN, cp.Pruned = 0, 0, 0, 0, 0, 0, 0
 				cp.Samples = nil
 				cp.Exhaustive = true
 				cp.WallS = 0
@@ -330,8 +330,13 @@ func aggregate(id, tier string, seed int64, pi propInfo, outs []*hx.ShardOut, xr
 				endStates[u.Name] = map[uint64]struct{}{}
 			}
 			m.Executions += u.Executions
+			m.Pruned += u.Pruned
 			m.Points += u.Points
 			m.NonTrivial += u.NonTrivial
+			m.Distinct += u.Distinct
+			if u.Kind == "dfs" && u.Bound < m.Bound {
+				m.Bound = u.Bound
+			}
 			m.States += u.States
 			m.Transitions += u.Transitions
 			if u.MaxPoints > m.MaxPoints {
@@ -456,7 +461,7 @@ func aggregate(id, tier string, seed int64, pi propInfo, outs []*hx.ShardOut, xr
 		evals += u.Executions
 		nontriv += u.NonTrivial
 		points += u.Points
-		if u.Kind == "bfs" {
+		if u.States > 0 {
 			states += u.States
 			trans += u.Transitions
 		} else {
@@ -473,8 +478,8 @@ func aggregate(id, tier string, seed int64, pi propInfo, outs []*hx.ShardOut, xr
 			}
 		}
 		outc := topOutcomes(u.Outcomes, 8)
-		unitList = append(unitList, map[string]any{"unit": name, "params": u.Params, "kind": u.Kind, "bound": u.Bound, "executions": u.Executions,
-			"choice_points": u.Points, "max_points_per_execution": u.MaxPoints, "executions_by_deviation_cost": u.ByCost, "distinct_outcomes": len(u.Outcomes),
+		unitList = append(unitList, map[string]any{"unit": name, "params": u.Params, "kind": u.Kind, "completed_deviation_bound": u.Bound, "executions": u.Executions, "distinct_executions": u.Distinct,
+			"pruned_by_state_cache": u.Pruned, "choice_points": u.Points, "max_points_per_execution": u.MaxPoints, "executions_by_deviation_cost": u.ByCost, "distinct_outcomes": len(u.Outcomes),
 			"top_outcomes": outc, "distinct_end_states": u.EndStatesN, "nontrivial": u.NonTrivial, "states": u.States, "transitions": u.Transitions,
 			"depth": u.Depth, "exhaustive": u.Exhaustive, "cap_hit": u.CapHit, "notes": u.Notes, "violation_signatures": sigs(u.Violations), "wall_s": round2(u.WallS)})
 	}
@@ -528,7 +533,7 @@ func aggregate(id, tier string, seed int64, pi propInfo, outs []*hx.ShardOut, xr
 		id, tier, len(order), evals, nontriv, states, trans, exhaustive, wall, buildS)
 	for _, name := range order {
 		u := units[name]
-		fmt.Printf("  %-28s execs=%-9d outcomes=%-4d endstates=%-7d exhaustive=%v %s\n", name, u.Executions, len(u.Outcomes), u.EndStatesN, u.Exhaustive, u.CapHit)
+		fmt.Printf("  %-28s execs=%-9d pruned=%-9d states=%-8d outcomes=%-4d endstates=%-7d exhaustive=%v %s\n", name, u.Executions, u.Pruned, u.States, len(u.Outcomes), u.EndStatesN, u.Exhaustive, u.CapHit)
 	}
 	for _, f := range findings {
 		if f.Property == id && f.Status == "open" && !knownSeen[f.Signature] {
